@@ -376,3 +376,63 @@ Definition hstep := (tree * entry * pstr)%type.
 
 Definition run_history (d : nat) (cwd : loc) (dirs : list comp) (base : pstr) (steps : list hstep) : list (res (list access)) :=
   map (fun s : hstep => let '(t, ep, p) := s in run_entry d t cwd dirs base ep p) steps.
+
+(* ---------------------------------------------------------------- sessions: what a listing hands out comes back in
+   One handle, a sequence of operations.  The string of a step is either a literal or a NAME RETURNED BY AN EARLIER
+   LISTING of the same handle (the garbage collector sweeping its candidates, a caller registering a file it has just
+   seen in data/, the recovery scan): SListed i k = the k-th name the i-th step returned.  os.walk reports a symlink
+   to a file among a directory's files, so such a name may lead out of the root although the listing that produced it
+   stayed inside.  The handle remembers NOTHING about the names it handed out: a step is resolved against its own tree
+   from the string alone (the library's handle state is its base string: Gen/GenPath.v gen_guard_reads /
+   gen_handle_writes, regenerated from the source).
+   An output records, per step, the outcome (None: the argument names no earlier listing entry, nothing is executed)
+   and the names the step returned to its caller. *)
+Inductive sarg := SLit (p : pstr) | SListed (i k : nat).
+Definition sstep := (tree * entry * sarg)%type.
+Definition sout := (option (res (list access)) * list pstr)%type.
+
+Definition sderef (outs : list sout) (a : sarg) : option pstr :=
+  match a with
+  | SLit p => Some p
+  | SListed i k => match nth_error outs i with Some (_, ns) => nth_error ns k | None => None end
+  end.
+
+Definition listed_names (d kf : nat) (t : tree) (cwd : loc) (base : pstr) (ep : entry) (p : pstr) : list pstr :=
+  match ep with
+  | EpList => match list_files d kf t cwd base p with Ok rs => rs | Err _ => [] end
+  | _ => []
+  end.
+
+Definition session_out (d kf : nat) (cwd : loc) (dirs : list comp) (base : pstr) (outs : list sout) (s : sstep) : sout :=
+  let '(t, ep, a) := s in
+  match sderef outs a with
+  | Some p => (Some (run_entry d t cwd dirs base ep p), listed_names d kf t cwd base ep p)
+  | None => (None, [])
+  end.
+
+Definition session_step (d kf : nat) (cwd : loc) (dirs : list comp) (base : pstr) (outs : list sout) (s : sstep) : list sout :=
+  outs ++ [session_out d kf cwd dirs base outs s].
+
+Definition run_session (d kf : nat) (cwd : loc) (dirs : list comp) (base : pstr) (steps : list sstep) : list sout :=
+  fold_left (session_step d kf cwd dirs base) steps [].
+
+(* A handle that DOES remember: every name a listing handed out is recorded with the location the walk found it at
+   (canonical root ++ name), and a later step whose string is a recorded name is handed that location without the
+   boundary check -- `a path produced by walking the canonical prefix is already canonical`.  Not the library's
+   behaviour; kept for the refutation in Props/C17.v (the kernel follows the recorded FILE link out of the root). *)
+Definition memo := list (pstr * loc).
+Fixpoint memo_find (m : memo) (p : pstr) : option loc :=
+  match m with
+  | [] => None
+  | (k, v) :: m' => if leqb p k then Some v else memo_find m' p
+  end.
+Definition resolve_memo (m : memo) (d : nat) (t : tree) (cwd : loc) (base p : pstr) : res loc :=
+  match memo_find m (lstrip p) with
+  | Some q => Ok q
+  | None => resolve d t cwd base p
+  end.
+Definition memo_after_listing (m : memo) (d kf : nat) (t : tree) (cwd : loc) (base prefix : pstr) : memo :=
+  match list_files d kf t cwd base prefix, realpath d t cwd base with
+  | Ok rs, Ok rb => map (fun r => (r, rb ++ r)) rs ++ m
+  | _, _ => m
+  end.
